@@ -4,7 +4,7 @@ import numpy as np
 from symx import core
 from symx.core import harness
 from symx.num import Sym, And
-from symx.arr import patched
+from symx.arr import patched, make_np
 from symx.ratfun import Q, qarray, adj_inv, poly_eq
 
 import typhon.retrieval.oem.common as OC
@@ -19,7 +19,15 @@ def FUNCTIONS():
 
 
 def _env(ctx):
-    return patched((OC, "inv", adj_inv)) if ctx.sym else patched()
+    if not ctx.sym:
+        return patched()
+    trip = [(OC, "inv", adj_inv)]
+    for m in (OC, OE):
+        if hasattr(m, "np"):
+            trip.append((m, "np", make_np()))
+        if hasattr(m, "numpy"):
+            trip.append((m, "numpy", make_np()))
+    return patched(*trip)
 
 
 def _spd(ctx, name, n, diagonal=False):
@@ -139,10 +147,53 @@ def k_scalar(ctx):
         ctx.check("0<S<=Sa", 0 < s <= S_a[0, 0] * (1 + 1e-12))
 
 
+@harness("C17.history", cases=lambda tier: [(1, 1), (1, 2), (2, 1)],
+         expect=lambda c: ["second-call-S", "second-call-G", "second-call-A", "inputs-not-modified"])
+def k_history(ctx):
+    """A second call on the *same array objects* after they were updated in place (iterative
+    retrievals rescale S_a / S_y / K between iterations) obeys the same identities; the
+    functions do not modify their arguments."""
+    n, m = ctx.case
+    K = ctx.real_array("K", (m, n))
+    S_a = _spd(ctx, "Sa", n)
+    S_y = _spd(ctx, "Sy", m)
+    sa = ctx.real("scale_a", lo=0, lo_open=True)
+    sy = ctx.real("scale_y", lo=0, lo_open=True)
+    sk = ctx.real("scale_k")
+    if ctx.sym:
+        K, S_a, S_y = [qarray(v) for v in (K, S_a, S_y)]
+        sa, sy, sk = Q.of(sa), Q.of(sy), Q.of(sk)
+    I = np.eye(n, dtype=object if ctx.sym else float)
+    with _env(ctx):
+        before = [a.copy() for a in (K, S_a, S_y)]
+        OC.error_covariance_matrix(K, S_a, S_y)
+        OC.retrieval_gain_matrix(K, S_a, S_y)
+        OC.averaging_kernel_matrix(K, S_a, S_y)
+        for a, b in zip((K, S_a, S_y), before):
+            for idx in np.ndindex(*a.shape):
+                ctx.check("inputs-not-modified", _eq(ctx, a[idx], b[idx]))
+        S_a *= sa
+        S_y *= sy
+        K *= sk
+        S = OC.error_covariance_matrix(K, S_a, S_y)
+        G = OC.retrieval_gain_matrix(K, S_a, S_y)
+        A = OC.averaging_kernel_matrix(K, S_a, S_y)
+    Sy_i, Sa_i = _inv(ctx, S_y), _inv(ctx, S_a)
+    P = S @ (K.T @ Sy_i @ K + Sa_i)
+    G_m = S_a @ K.T @ _inv(ctx, K @ S_a @ K.T + S_y)
+    ISS = I - S @ Sa_i
+    for i in range(n):
+        for j in range(n):
+            ctx.check("second-call-S", _eq(ctx, P[i, j], I[i, j]))
+            ctx.check("second-call-A", _eq(ctx, A[i, j], ISS[i, j]))
+        for j in range(m):
+            ctx.check("second-call-G", _eq(ctx, G[i, j], G_m[i, j]))
+
+
 PLAN = {
-    "quick": {"harnesses": ["C17.identities", "C17.scalar-bounds"],
+    "quick": {"harnesses": ["C17.identities", "C17.scalar-bounds", "C17.history"],
               "opts": {"query_timeout_ms": 15000}},
-    "thorough": {"harnesses": ["C17.identities", "C17.scalar-bounds"],
+    "thorough": {"harnesses": ["C17.identities", "C17.scalar-bounds", "C17.history"],
                  "opts": {"query_timeout_ms": 60000}},
 }
 BOUNDS = {"quick": {"shapes (n, m)": "(1,1), (1,2), (2,1) with full symmetric SPD covariances; all real K incl. zero / rank deficient",
